@@ -88,7 +88,14 @@ pub fn execute(focus: &str, sc: &S1Scenario) -> (Vec<Violation>, Counters, Obs) 
         let o3 = run_s1(&again);
         c.inc("seed_replay_comparisons");
         let (a, b) = (first_trace(&obs), first_trace(&o3));
-        if a != b {
+        // a timeout may cut a trace short (or prevent it): then one must be a prefix of the other
+        let compatible = if sc.timeout_ns.is_some() {
+            let n = a.len().min(b.len());
+            a[..n] == b[..n]
+        } else {
+            a == b
+        };
+        if !compatible {
             v.push(Violation::new("C12", "seed-replay", format!("first trace with seed {}: {:?} vs {:?}", sc.sim_seed, a, b)));
         }
     }
